@@ -485,7 +485,10 @@ uint32_t LessThan_deepPTRef::getVarIdFromProduct(PTRef tr) const {
 bool LessThan_deepPTRef::operator()(PTRef x_, PTRef y_) const {
     uint32_t id_x = l.isTimes(x_) ? getVarIdFromProduct(x_) : x_.x;
     uint32_t id_y = l.isTimes(y_) ? getVarIdFromProduct(y_) : y_.x;
-    return id_x < id_y;
+    // Terms over the same variable (x, 2*x, 3*x) are ordered by their own reference: without the tie-break
+    // the comparison is not total, the sorted argument list of a commutative symbol depends on the order
+    // the arguments were given in, and (= x (* 2 x)) and (= (* 2 x) x) become two different terms.
+    return id_x < id_y or (id_x == id_y and x_.x < y_.x);
 }
 
 void ArithLogic::termSort(vec<PTRef> & v) const {
